@@ -37,14 +37,15 @@ type gDoc struct {
 }
 
 type bundleGen struct {
-	r       *R
-	feat    map[string]bool
-	docs    []*gDoc
-	opts    FlatOpts
-	plus    bool
-	depth   int
-	maxDefs int
-	opIDs   map[string]bool
+	r         *R
+	rootNoRef bool
+	feat      map[string]bool
+	docs      []*gDoc
+	opts      FlatOpts
+	plus      bool
+	depth     int
+	maxDefs   int
+	opIDs     map[string]bool
 }
 
 func (g *bundleGen) on(f string) bool { return g.feat[f] }
@@ -121,6 +122,9 @@ func genBundle(r *R, opts FlatOpts, plus bool, thorough bool, force map[string]b
 	flag("sharedBody", 40)
 	flag("headers", 30)
 	flag("noOpIDs", 25)
+	flag("caseSiblings", 25)
+	flag("multiReferrers", 50)
+	flag("auxOnlyViaShared", 12)
 	flag("security", 45)
 	flag("opMedia", 35)
 	flag("paramEnums", 35)
@@ -140,6 +144,16 @@ func genBundle(r *R, opts FlatOpts, plus bool, thorough bool, force map[string]b
 	}
 	if opts.KeepNames {
 		naux = 0
+	}
+	if naux == 0 {
+		g.feat["auxOnlyViaShared"] = false
+	}
+	if g.on("auxOnlyViaShared") {
+		// the root holds no schema $ref and no path-item $ref of its own: auxiliary schemas are reached only through
+		// cross-file parameter/response $refs
+		g.feat["paramRefs"], g.feat["respRefs"] = true, true
+		g.feat["pathItemRefs"], g.feat["anonPtr"], g.feat["anonPtrShared"], g.feat["recursion"], g.feat["collideGenerated"] = false, false, false, false, false
+		g.rootNoRef = true
 	}
 	if opts.Expand || opts.Minimal && false {
 		g.feat["anonPtr"] = false
@@ -189,7 +203,14 @@ func genBundle(r *R, opts FlatOpts, plus bool, thorough bool, force map[string]b
 	g.breakAliasLoops()
 	g.sharedObjects()
 	g.rootPaths()
-	g.ensureAuxUsed()
+	if g.on("auxOnlyViaShared") {
+		g.ensureSharedAuxUse()
+	} else {
+		g.ensureAuxUsed()
+	}
+	if g.on("caseSiblings") {
+		g.plantCaseSiblings()
+	}
 	if g.on("anonPtr") && !opts.Expand {
 		g.plantAnonPointers()
 	}
@@ -451,6 +472,9 @@ func (g *bundleGen) primitive() obj {
 // schema generates a schema for document d. owner is the definition being generated ("" outside definitions).
 func (g *bundleGen) schema(d *gDoc, depth int, noRef bool, owner string) obj {
 	r := g.r
+	if d.isRoot && g.rootNoRef {
+		noRef = true
+	}
 	if depth <= 0 {
 		if !noRef && r.P(40) {
 			if s, ok := g.refSchema(d); ok {
@@ -885,7 +909,92 @@ func (g *bundleGen) ensureAuxUsed() {
 				rd.defs[holder] = ref
 			}
 			rd.defNames = append(rd.defNames, holder)
+			if g.on("multiReferrers") && g.r.P(60) {
+				// further referrers of the same imported definition, at other kinds of places
+				for u := 0; u < g.r.Range(1, 2); u++ {
+					ref2 := obj{"$ref": refTo(rd, ad, "definitions", n)}
+					switch g.r.Intn(4) {
+					case 0:
+						h2 := fmt.Sprintf("%sAlso%d", holder, u)
+						rd.defs[h2] = obj{"type": "object", "properties": obj{"at": ref2, "n": g.primitive()}}
+						rd.defNames = append(rd.defNames, h2)
+					case 1:
+						h2 := fmt.Sprintf("%sList%d", holder, u)
+						rd.defs[h2] = obj{"type": "array", "items": ref2}
+						rd.defNames = append(rd.defNames, h2)
+					case 2:
+						g.addRootOp(fmt.Sprintf("/also%s%d%d", strings.TrimSuffix(path.Base(ad.path), ".json"), i, u), ref2)
+					case 3:
+						g.addRootOp(fmt.Sprintf("/alsoin%s%d%d", strings.TrimSuffix(path.Base(ad.path), ".json"), i, u),
+							obj{"type": "object", "properties": obj{"deep": obj{"type": "object", "properties": obj{"at": ref2}}}})
+					}
+				}
+			}
 		}
+	}
+}
+
+// ensureSharedAuxUse: every auxiliary document is reached from the root only through a parameter or response $ref.
+func (g *bundleGen) ensureSharedAuxUse() {
+	rd := g.docs[0]
+	for i, ad := range g.docs[1:] {
+		if len(ad.responses) == 0 {
+			ad.responses[fmt.Sprintf("auxResp%d", i)] = g.response(ad)
+		}
+		rn := sortedKeys(ad.responses)[0]
+		// make sure that response carries a schema with a $ref local to the auxiliary document
+		if len(ad.defNames) > 0 {
+			resp, _ := asObj(ad.responses[rn])
+			resp["schema"] = obj{"type": "object", "properties": obj{"via": obj{"$ref": refTo(ad, ad, "definitions", ad.defNames[0])}}}
+			if g.r.P(50) {
+				resp["schema"] = obj{"$ref": refTo(ad, ad, "definitions", ad.defNames[0])}
+			}
+		}
+		op := obj{"responses": obj{"200": obj{"$ref": refTo(rd, ad, "responses", rn)}}}
+		if len(ad.params) > 0 && g.r.P(60) {
+			op["parameters"] = []any{obj{"$ref": refTo(rd, ad, "parameters", sortedKeys(ad.params)[0])}}
+		}
+		rd.paths[fmt.Sprintf("/shared%d", i)] = obj{"get": op}
+	}
+}
+
+// plantCaseSiblings adds keys that differ only by letter case at the same depth (definitions 'Order'/'order',
+// sibling properties 'Id'/'id'), each holding an inline complex schema at the same sub-location, so that both
+// claim the same generated name.
+func (g *bundleGen) plantCaseSiblings() {
+	rd := g.docs[0]
+	swapCase := func(s string) string {
+		rs := []rune(s)
+		if len(rs) == 0 {
+			return s
+		}
+		if unicode.IsUpper(rs[0]) {
+			rs[0] = unicode.ToLower(rs[0])
+		} else {
+			rs[0] = unicode.ToUpper(rs[0])
+		}
+		return string(rs)
+	}
+	inner := func(tag string) obj {
+		return obj{"type": "object", "properties": obj{"detail": obj{"type": "object", "properties": obj{"v" + tag: g.primitive()}}, "n": g.primitive()}}
+	}
+	base := g.r.Pick([]string{"order", "widget", "Case", "basket"})
+	other := swapCase(base)
+	if _, ok := rd.defs[base]; !ok {
+		if _, ok2 := rd.defs[other]; !ok2 {
+			g.addRootDef(base, inner("1"))
+			g.addRootDef(other, inner("2"))
+		}
+	}
+	if g.r.P(50) {
+		// sibling properties differing by case inside one definition
+		g.addRootDef("caseProps", obj{"type": "object", "properties": obj{
+			"Id": obj{"type": "object", "properties": obj{"a": g.primitive()}},
+			"id": obj{"type": "object", "properties": obj{"b": g.primitive()}}}})
+	}
+	if g.r.P(40) {
+		// anonymous-pointer targets differing only by case are exercised through the normal pointer planting
+		g.addRootOp("/case"+base, obj{"$ref": mkRef("", "definitions", base)})
 	}
 }
 
@@ -940,9 +1049,35 @@ func (g *bundleGen) plantAnonPointers() {
 	if len(targets) == 0 {
 		return
 	}
+	// prefer, sometimes, the direct sub-schema of a root definition that holds the $ref to a colliding import
+	var preferred []target
+	for _, t := range targets {
+		if t.toks[0] != "definitions" {
+			continue
+		}
+		if v, ok := walkPtr(obj{"definitions": rd.defs}, t.toks); ok {
+			if ref, isRef := refOf(v); isRef {
+				docPart, rtoks, _, err := splitRef(ref)
+				if err == nil && docPart != "" && len(rtoks) == 2 {
+					for _, ad := range g.docs[1:] {
+						if strings.HasSuffix(ad.path, "/"+path.Base(docPart)) && ad.refFree[rtoks[1]] {
+							preferred = append(preferred, t)
+						}
+					}
+				}
+			}
+		}
+	}
 	k := r.Range(1, 2)
+	usePreferred := len(preferred) > 0 && r.P(60)
+	if usePreferred {
+		k = 1
+	}
 	for i := 0; i < k; i++ {
 		t := targets[r.Intn(len(targets))]
+		if usePreferred {
+			t = preferred[r.Intn(len(preferred))]
+		}
 		ref := obj{"$ref": mkRef("", t.toks...)}
 		// holders live in fresh places that are not inside any pointer target: a new definition, or a new
 		// operation's body parameter / response
